@@ -54,6 +54,32 @@ def datasets(seed, thorough):
     return out
 
 
+def unit_spectra():
+    """seed-independent spectra far from the ohm range (the property is about units): two high-impedance 'coating' spectra (parallel 1e9 ohm,
+    (RC) elements of 1e7..1e9 ohm with pF..nF) and a milli-ohm cell; 0.05 % noise from a fixed generator"""
+    out = []
+    rng = np.random.default_rng(20260929)
+
+    def noisy(Z):
+        s = 5e-4 * np.abs(Z)
+        return Z + s * rng.standard_normal(Z.size) + 1j * s * rng.standard_normal(Z.size)
+    f = np.logspace(4, -2, 49)
+    w = 2 * np.pi * f
+    for name, R0, Rp, rcs in (("coating1", 1e5, 1e9, ((1e7, 1e-11), (1e8, 1e-10), (1e9, 1e-9))),
+                              ("coating2", 3e4, 1e9, ((3e7, 5e-12), (5e8, 2e-11), (8e8, 3e-9), (2e7, 1e-9)))):
+        Zs = R0 + sum(R / (1 + 1j * w * R * C) for R, C in rcs)
+        Z = 1 / (1 / Zs + 1 / Rp)
+        out.append((name, f, noisy(Z), 13, f"{name}: [{R0:g} ohm + " + " + ".join(f"({R:g} ohm || {C:g} F)" for R, C in rcs) + f"] || {Rp:g} ohm, 49 points 1e4..1e-2 Hz, 0.05 % noise (fixed)",
+                    (True,), [("zscale", 1e-6), ("zscale", 1e-3), ("zscale", 1e3)]))
+    f = np.logspace(3, -2, 41)
+    w = 2 * np.pi * f
+    rcs = ((2e-3, 10.0), (5e-3, 100.0), (1e-3, 0.5))
+    Z = 1e-3 + sum(R / (1 + 1j * w * R * C) for R, C in rcs)
+    out.append(("milliohm-cell", f, noisy(Z), 11, "milliohm-cell: 1e-3 ohm + " + " + ".join(f"({R:g} ohm || {C:g} F)" for R, C in rcs) + ", 41 points 1e3..1e-2 Hz, 0.05 % noise (fixed)",
+                (False, True), [("zscale", 1e3), ("zscale", 1e6)]))
+    return out
+
+
 def transforms(thorough):
     zs = (1e-6, 1e-3, 1e3, 1e6) if thorough else (1e-3, 1e3)
     fs = (1e-6, 1e-3, 1e3, 1e4, 1e6) if thorough else (1e-3, 1e3)
@@ -162,7 +188,12 @@ def main(a):
                     for addL in ((True,) if test.endswith("-inv") else (False, True)):
                         for lf in lfs:
                             args.append((name, f, Z, n, desc, test, adm, addC, addL, lf, tfs))
-    probe = ""
+    units = unit_spectra()      # both tiers, seed-independent: no C/L columns (the -inv tests cannot run without the inductance column)
+    for (name, uf, uZ, n, desc, adms, utfs) in units:
+        for test in LINEAR_TESTS:
+            for adm in adms:
+                args.append((name, uf, uZ, n, desc, test, adm, False, test.endswith("-inv"), 0.0, utfs))
+    probe = ("; plus fixed unit probes without C/L columns: " + ", ".join(f"{u[0]} ({'Y' if u[5] == (True,) else 'Z,Y'}) x Z x {[c for _, c in u[6]]}" for u in units))
     if not thorough:
         # seed-independent probe of the open known finding (lstsq/pinv rank truncation at f x 1e4 with C and L columns): same contract,
         # tolerances and keys as the thorough tier, so that the quick tier exercises ^fscale=(1e4|1e6|1e-6):(C-column|L-column|C\+L-columns): too
@@ -172,7 +203,7 @@ def main(a):
             for adm in (False, True):
                 args.append(("CIRCUIT_1-probe", pf, pZ, 9, "pyimpspec.generate_mock_data('CIRCUIT_1', noise=5e-2, seed=42)[0] (fixed known-finding probe)",
                              test, adm, True, True, 0.0, [("fscale", 1e4)]))
-        probe = "; plus a fixed probe: CIRCUIT_1 (seed 42) x {complex, imaginary} x {Z,Y} x C+L columns x frequencies x 1e4"
+        probe += "; plus a fixed probe: CIRCUIT_1 (seed 42) x {complex, imaginary} x {Z,Y} x C+L columns x frequencies x 1e4"
     res = Result("C09", f"{len(data)} spectra ({', '.join(d[0] for d in data)}; f_max <= 1e4 Hz, 0.05 % noise) x 6 linear tests x {{Z,Y}} x add_capacitance x add_inductance "
                         f"x fixed num_RC (~2/decade) x log_F_ext in {list(lfs)} x transformations {[(k, c) for k, c in tfs]}{probe}",
                  "full cross product; each case compares the run on the transformed spectrum with the run on the original one (two-run relation); "
